@@ -10142,6 +10142,7 @@ lyxp_set_cast(struct lyxp_set *set, enum lyxp_set_type target)
 {
     long double num;
     char *str;
+    int prec;
     LY_ERR rc;
 
     if (!set || (set->type == target)) {
@@ -10179,8 +10180,16 @@ lyxp_set_cast(struct lyxp_set *set, enum lyxp_set_type target)
                 }
                 set->val.str = str;
             } else {
-                if (asprintf(&str, "%03.1Lf", set->val.num) == -1) {
-                    LOGMEM_RET(set->ctx);
+                /* decimal notation without an exponent and with as many fraction digits as are needed to read
+                 * the same number back, none for an integer */
+                for (prec = 0; ; ++prec) {
+                    if (asprintf(&str, "%.*Lf", prec, set->val.num) == -1) {
+                        LOGMEM_RET(set->ctx);
+                    }
+                    if ((prec == LYXP_NUM_FRAC_DIGITS_MAX) || (strtold(str, NULL) == set->val.num)) {
+                        break;
+                    }
+                    free(str);
                 }
                 set->val.str = str;
             }
